@@ -37,6 +37,7 @@ void fail(const std::string& k, const std::string& d) { std::lock_guard<std::mut
 void observe(const std::string& o) { std::lock_guard<std::mutex> l{g_mu}; g_outcome = o; }
 void state_hash(uint64_t) {}
 bool active() { return false; }
+void quiesce() { std::this_thread::sleep_for(std::chrono::milliseconds(30)); }
 int thread_id() { return -1; }
 uint64_t timeouts_taken() { return 0; }
 
